@@ -25,6 +25,9 @@ type C15Cli struct {
 	Unit   []Instr `json:"unit"`   // repeated to reach the target size
 	Target int     `json:"target"` // approximate size in bytes of the valid part
 	Tail   string  `json:"tail"`   // none, truncated, opcode, longint
+	// More: the command line names a second, well-formed file after this one (whatever the
+	// tool makes of further arguments, a malformed program among them is not a success)
+	More bool `json:"more,omitempty"`
 }
 
 func (c C15Cli) bytes() []byte {
@@ -59,6 +62,7 @@ func genC15Cli(t *rapid.T) C15Cli {
 		c.Unit = []Instr{{Op: refdec.HALT}}
 	}
 	c.Tail = []string{"none", "truncated", "opcode", "halfopcode", "longint"}[uniformN(t, 5, "tail")]
+	c.More = chancePct(t, 15, "more")
 	return c
 }
 
@@ -89,6 +93,15 @@ func checkC15Cli(c C15Cli) (o Outcome) {
 		return
 	}
 	cmd := exec.Command(bin, fp)
+	if c.More {
+		fp2 := filepath.Join(dir, "good.bin")
+		good, _ := refdec.EncodeAll([]Instr{{Op: refdec.LOAD, Sym: "foo", Num: 42}, {Op: refdec.MAP, Sym: "foo"}, {Op: refdec.HALT}})
+		if err := os.WriteFile(fp2, good, 0o600); err != nil {
+			o.Discard = "no-scratch-file"
+			return
+		}
+		cmd = exec.Command(bin, fp, fp2)
+	}
 	var stdout, stderr bytes.Buffer
 	cmd.Stdout, cmd.Stderr = &stdout, &stderr
 	rerr := cmd.Run()
@@ -108,6 +121,11 @@ func checkC15Cli(c C15Cli) (o Outcome) {
 	}
 	if code == 0 && derr != nil {
 		o.Viol = viol("cli-silent-accept", "dev/disasm exits 0 with %d lines of listing on %s, which is malformed: %v", strings.Count(stdout.String(), "\n"), desc, derr)
+		return
+	}
+	if c.More {
+		o.NonTrivial = derr != nil
+		o.class("two-files")
 		return
 	}
 	if code == 0 && terr == nil && strings.Count(stdout.String(), "\n") != strings.Count(text, "\n") {
